@@ -185,6 +185,14 @@ func All() []Params {
 		}
 	}
 	out = append(out, Params{Variant: "Do", N: 4, P: 2, Ctx: "live", Procs: 2}, Params{Variant: "Do", N: 3, P: 0, Ctx: "live", Procs: 3})
+	// n far above the parallelism (explored with few preemptions: the point is the hand-out of indices)
+	out = append(out,
+		Params{Variant: "Do", N: 33, P: 2, Ctx: "live", Procs: 2},
+		Params{Variant: "Do", N: 49, P: 3, Ctx: "live", Procs: 2},
+		Params{Variant: "DoContext", N: 33, P: 2, Ctx: "live", Procs: 2},
+		Params{Variant: "Map", N: 17, P: -1, Ctx: "live", Procs: 2},
+		Params{Variant: "Do", N: 5, P: 4, Ctx: "live", Procs: 2},
+	)
 	for _, n := range []int{2, 3} {
 		for _, p := range []int{0, 2, 3} {
 			fails := [][]int{nil, {0}, {n - 1}, {0, n - 1}}
